@@ -239,7 +239,7 @@ class Component( ComponentLevel7 ):
 
     # Now we put back the provided upblk metadata to parent and top
     for blk, obj_name in provided_upblk_reads:
-      parent._dsl.upblk_reads[blk].add( eval(obj_name) )
+      top._dsl.all_upblk_reads[blk].add( eval(obj_name) )
 
     for blk, obj_name in provided_upblk_writes:
       written = eval(obj_name)
@@ -249,7 +249,7 @@ class Component( ComponentLevel7 ):
         written._dsl.needs_double_buffer = True
 
     for blk, obj_name in provided_upblk_calls:
-      parent._dsl.upblk_calls[blk].add( eval(obj_name) )
+      top._dsl.all_upblk_calls[blk].add( eval(obj_name) )
 
     for func, obj_name in provided_func_reads:
       parent._dsl.func_reads[func].add( eval(obj_name) )
@@ -343,14 +343,15 @@ class Component( ComponentLevel7 ):
       # must save the information (upA reads B) to avoid bugs or
       # explicitly re-elaborating the parent.
 
-      for blk, reads in parent._dsl.upblk_reads.items():
-        assert blk in top._dsl.all_upblk_reads
+      # A block of ANY ancestor may read a port of the removed component.
+      # The top-level table holds the very set objects of every component.
+      for blk, reads in top._dsl.all_upblk_reads.items():
         to_save = set()
         for x in reads:
           if x in removed_connectables:
             to_save.add( x )
             saved_upblk_reads.append( (blk, repr(x)) )
-        parent._dsl.upblk_reads[blk] -= to_save
+        top._dsl.all_upblk_reads[blk] -= to_save
 
       for blk, writes in parent._dsl.upblk_writes.items():
         assert blk in top._dsl.all_upblk_writes
@@ -361,15 +362,15 @@ class Component( ComponentLevel7 ):
             saved_upblk_writes.append( (blk, repr(x)) )
         parent._dsl.upblk_writes[blk] -= to_save
 
-      for blk, calls in parent._dsl.upblk_calls.items():
-        assert blk in top._dsl.all_upblk_calls
+      # ... or call one of its methods
+      for blk, calls in top._dsl.all_upblk_calls.items():
         to_save = set()
         for x in calls:
           # a call set may hold a CL/FL interface besides method ports
           if x in removed_connectables or x in removed_interfaces:
             to_save.add( x )
             saved_upblk_calls.append( (blk, repr(x)) )
-        parent._dsl.upblk_calls[blk] -= to_save
+        top._dsl.all_upblk_calls[blk] -= to_save
 
       # We need to save the information for funcs too
       for func, reads in parent._dsl.func_reads.items():
